@@ -286,6 +286,19 @@ func lenBound(b *ssa.BasicBlock, s ssa.Value) int64 {
 			bi, ok := call.Call.Value.(*ssa.Builtin)
 			return ok && bi.Name() == "len" && an.SameValue(call.Call.Args[0], s)
 		}
+		// a string compared with "": s != "" means len(s) ≥ 1
+		if (op == token.EQL || op == token.NEQ) && (an.SameValue(x, s) || an.SameValue(y, s)) {
+			other := y
+			if an.SameValue(y, s) {
+				other = x
+			}
+			if k, isS := an.ConstString(other); isS && k == "" {
+				if (op == token.NEQ) == g.Outcome && best < 1 {
+					best = 1
+				}
+			}
+			continue
+		}
 		if !isLen(x) {
 			if isLen(y) {
 				// swap: k op len  ⇒  len op' k
@@ -351,8 +364,26 @@ func constantIndexing(c *an.Ctx, fns []*ssa.Function, rule string) {
 				}
 				s, need, what = x.X, k+1, fmt.Sprintf("[%d]", k)
 			case *ssa.Slice:
-				if _, isSlice := x.X.Type().Underlying().(*types.Slice); !isSlice {
+				_, isSlice := x.X.Type().Underlying().(*types.Slice)
+				if b, isB := x.X.Type().Underlying().(*types.Basic); isB && b.Info()&types.IsString != 0 {
+					isSlice = true // a string is sliced under the same bounds rules
+				}
+				if !isSlice {
 					return
+				}
+				// s[k:h] with a constant k ≥ 1 and a computed h: h < k is a panic whatever the length is
+				if x.Low != nil && x.High != nil {
+					if k, ok := an.ConstInt(x.Low); ok && k >= 1 {
+						if _, isC := an.ConstInt(x.High); !isC {
+							n++
+							key := fmt.Sprintf("%s:slice[%d:h](%s)", an.Short(fn), k, an.FieldProv(x.X))
+							if highAtLeast(in.Block(), x.High, k) {
+								c.OK(rule, key, in.Pos(), "the upper bound is tested to be ≥ %d on the way", k)
+							} else {
+								c.Bad(rule, key, in.Pos(), "%s slices %s[%d:%s] but no dominating test establishes %s ≥ %d: an upper bound that falls below the constant lower bound (a closing quote found at position 0, an index that is -1 or 0) is a slice-bounds panic", an.Short(fn), an.Prov(x.X), k, an.Prov(x.High), an.Prov(x.High), k)
+							}
+						}
+					}
 				}
 				var k int64
 				if x.Low != nil {
@@ -1134,4 +1165,64 @@ func loadWaits(c *an.Ctx, rule string, roots []*ssa.Function) {
 	if n == 0 {
 		c.OK(rule, "load scope:channel-waits", roots[0].Pos(), "no channel operation, Cond.Wait or polling loop is synchronously reachable from the %d entry points of the load scope", len(roots))
 	}
+}
+
+// highAtLeast: on every way to block b the value h was compared so that h ≥ k holds (h ≥ c with c ≥ k, h > c with
+// c ≥ k-1, or the mirrored forms; a length — len(x) — of something whose length is tested likewise).
+func highAtLeast(b *ssa.BasicBlock, h ssa.Value, k int64) bool {
+	for _, g := range an.Guards(b) {
+		bo, ok := g.Cond.(*ssa.BinOp)
+		if !ok {
+			continue
+		}
+		x, y, op := bo.X, bo.Y, bo.Op
+		if !g.Outcome {
+			switch op {
+			case token.LSS:
+				op = token.GEQ
+			case token.LEQ:
+				op = token.GTR
+			case token.GTR:
+				op = token.LEQ
+			case token.GEQ:
+				op = token.LSS
+			case token.EQL:
+				op = token.NEQ
+			case token.NEQ:
+				op = token.EQL
+			}
+		}
+		// normalise to h <op> c
+		if an.SameValue(y, h) {
+			x, y = y, x
+			switch op {
+			case token.LSS:
+				op = token.GTR
+			case token.LEQ:
+				op = token.GEQ
+			case token.GTR:
+				op = token.LSS
+			case token.GEQ:
+				op = token.LEQ
+			}
+		}
+		if !an.SameValue(x, h) {
+			continue
+		}
+		cst, isC := an.ConstInt(y)
+		if !isC {
+			continue
+		}
+		switch op {
+		case token.GEQ:
+			if cst >= k {
+				return true
+			}
+		case token.GTR:
+			if cst >= k-1 {
+				return true
+			}
+		}
+	}
+	return false
 }
